@@ -75,3 +75,74 @@ func c07InFlight(cached bool, shape int) string {
 	}
 	return ""
 }
+
+// c07CloserStays: "Closing a scope never affects any other scope": the reporter (which implements
+// io.Closer) is shared by all scopes and belongs to the root - closing a subscope, once or twice, by
+// Close or by the pass that drops it, must not close it; the other scopes keep delivering.
+func c07CloserStays(cached bool) string {
+	log := &Log{}
+	opts := tally.ScopeOptions{OmitCardinalityMetrics: true}
+	if cached {
+		opts.CachedReporter = &RecCachedCloser{RecCached: RecCached{L: log, Caps: caps{true, true}}}
+	} else {
+		opts.Reporter = &RecCloser{RecReporter: RecReporter{L: log, Caps: caps{true, true}}}
+	}
+	root, closer := tally.VerifNewRootScope(opts, 0, 1)
+	sub := root.Tagged(map[string]string{"k": "v"})
+	other := root.SubScope("other")
+	sub.Counter("c").Inc(1)
+	other.Counter("d").Inc(1)
+	closes := func() int {
+		n := 0
+		for _, e := range log.Snapshot() {
+			if e.K == 7 {
+				n++
+			}
+		}
+		return n
+	}
+	sub.(interface{ Close() error }).Close()
+	if n := closes(); n != 0 {
+		closer.Close()
+		return fmt.Sprintf("closing a subscope closed the reporter shared by all scopes (%d Close calls on the reporter; the root is still open)", n)
+	}
+	sub.(interface{ Close() error }).Close()
+	tally.VerifReportOnce(root) // reports and drops the closed subscope
+	other.Counter("d").Inc(2)
+	root.Counter("r").Inc(5)
+	tally.VerifReportOnce(root)
+	if n := closes(); n != 0 {
+		closer.Close()
+		return fmt.Sprintf("a closed subscope was dropped by a report pass: the reporter shared by all scopes was closed %d times although the root is still open", n)
+	}
+	closer.Close()
+	if n := closes(); n != 1 {
+		return fmt.Sprintf("after a subscope's Close and the root's Close the reporter was closed %d times (expected once, by the root)", n)
+	}
+	got := map[string]int64{}
+	alloc := map[int64]string{}
+	last7, lastDel := -1, -1
+	for i, e := range log.Snapshot() {
+		switch e.K {
+		case 1:
+			got[e.S[0]] += e.I[0]
+			lastDel = i
+		case 11:
+			alloc[e.I[0]] = e.S[0]
+		case 21:
+			got[alloc[e.I[0]]] += e.I[1]
+			lastDel = i
+		case 7:
+			last7 = i
+		}
+	}
+	if last7 < lastDel {
+		return "the reporter was closed before the last delivery"
+	}
+	for n, w := range map[string]int64{"c": 1, "other.d": 3, "r": 5} {
+		if got[n] != w {
+			return fmt.Sprintf("a subscope was closed while other scopes went on recording: counter %q had %d recorded, %d delivered when the root's Close returned", n, w, got[n])
+		}
+	}
+	return ""
+}
